@@ -192,6 +192,11 @@ def run_case(desc):
                 stats['type_null_edit'] = 1
             except Exception:
                 pass
+    for e in edits:
+        # null=False spelled out on some AddFields (legal, redundant)
+        if e['op'] == 'add_field' and not e['fdef'].get('null') and \
+                e['fdef']['kind'] != 'ManyToMany' and rng.random() < 0.4:
+            e['explicit_null'] = True
     p = perturb(rng, edits, h.specs[0])
     key = S.canon([h.specs, desc])
     if p is None or not edits:
@@ -213,6 +218,12 @@ def run_case(desc):
     ok, why = reaches(psig0, tsig, muts, 'app1')
     implicit_null = None
     for e in pedits:
+        if e['op'] == 'add_field' and not e['fdef'].get('null') and \
+                e['fdef']['kind'] != 'ManyToMany' and \
+                e.get('initial') is None:
+            # "adds a column as non-null without an initial value"
+            if ok:
+                ok, why = False, 'nonnull_without_initial:'
         if e['op'] == 'change_field' and e.get('new_kind') and \
                 e['attrs'].get('null') is False and e.get('initial') is None:
             # "changes a column to non-null without an initial value": to be
